@@ -748,6 +748,7 @@ type c15Case struct {
 	OptLevel int        `json:"opt_level,omitempty"`
 	Ds       []c15Deriv `json:"derivations,omitempty"`
 	Via      bool       `json:"via_slog_logger,omitempty"`
+	Siblings bool `json:"siblings,omitempty"` // after every derivation two more handlers are derived from the same parent and dropped
 	Sec      int64      `json:"sec,omitempty"`
 	Nsec     int64      `json:"nsec,omitempty"`
 	Zone     int        `json:"zone,omitempty"`
@@ -1059,12 +1060,14 @@ func c15Handle(r *Run, snap *slog.VerifRegistry, c c15Case) {
 	sl := logslog.New(base)
 	for i := range c.Ds {
 		d := &c.Ds[i]
+		ph, psl := h, sl
 		if d.Group != nil {
 			if c.Via {
 				sl = sl.WithGroup(*d.Group)
 			} else {
 				h = h.WithGroup(*d.Group)
 			}
+			c15Decoys(c, ph, psl)
 			continue
 		}
 		real := toSlogAttrs(d.Attrs)
@@ -1078,6 +1081,10 @@ func c15Handle(r *Run, snap *slog.VerifRegistry, c c15Case) {
 		} else {
 			h = h.WithAttrs(real)
 		}
+		c15Decoys(c, ph, psl)
+	}
+	if c.Siblings { // and two more from the handler that is going to be used
+		c15Decoys(c, h, sl)
 	}
 	if c.Via {
 		h = sl.Handler()
@@ -1304,6 +1311,21 @@ func c15Handle(r *Run, snap *slog.VerifRegistry, c c15Case) {
 	r.AddCase(term, c, derived || !std, string(b))
 }
 
+// c15Decoys derives two more handlers from a parent that already has a derived handler in use: a handler
+// derived earlier must keep what it was given
+func c15Decoys(c c15Case, h logslog.Handler, sl *logslog.Logger) {
+	if !c.Siblings {
+		return
+	}
+	if c.Via {
+		_ = sl.With("decoy-sibling", "x")
+		_ = sl.WithGroup("decoy-group")
+	} else {
+		_ = h.WithAttrs([]logslog.Attr{logslog.String("decoy-sibling", "x")})
+		_ = h.WithGroup("decoy-group")
+	}
+}
+
 func optLevel(c c15Case) int {
 	if c.NilOpts {
 		return 0
@@ -1354,6 +1376,10 @@ func genHandleCase(r *Run, maxDepth int) c15Case {
 	depth := 0
 	if rg.Chance(55) {
 		n := 1 + rg.Intn(4)
+		if rg.Chance(20) {
+			n = 5 + rg.Intn(5)
+		}
+		c.Siblings = rg.Bool()
 		for i := 0; i < n; i++ {
 			if rg.Chance(40) {
 				name := g.key(depth)
@@ -1380,7 +1406,7 @@ func runC15(r *Run) {
 	r.Rule = "level conversions of all three functions on -20..20 and extremes (int64/int32 bounds), every built-in Level back to log/slog; Enabled for 12 logger levels x debug mode x 4 standard + other levels; " +
 		"random attribute trees (every log/slog Value kind, groups nested <= 4, empty groups, LogValuers incl. nested ones and ones resolving to groups, Any of struct/map/nil/error/slice/pointer/array) converted one by one and compared structurally; " +
 		"Entry.Log on 12 logger levels x the level grid; the std-log bridge for ALL (logger level, bridge severity) pairs of the 12 built-in levels x debug mode x messages (empty, with/without trailing newline, several newlines, bytes >= 0x80); " +
-		"NewSlogHandler under random option combinations (incl. nil options) on loggers in every format, chains of 0..4 WithAttrs/WithGroup (on the handler or through log/slog.Logger.With/WithGroup), one record through Handle (own time) or log/slog.Logger (time of the call): " +
+		"NewSlogHandler under random option combinations (incl. nil options) on loggers in every format, chains of 0..9 WithAttrs/WithGroup (half of them with two further handlers derived from every parent on the way and dropped) (on the handler or through log/slog.Logger.With/WithGroup), one record through Handle (own time) or log/slog.Logger (time of the call): " +
 		"number of writes, destination, format, and in JSON mode level, message, time and the sequence of keys (siblings sorted by key, a group before its members) with the values of int/uint/bool/plain strings; " +
 		"non-trivial = a derived handler or a non-standard level; distinct by canonical input"
 	r.Exhaust = true
